@@ -14,12 +14,14 @@ package main
 import (
 	"encoding/json"
 	"fmt"
+	"math"
 	"os"
 	"path/filepath"
 	"runtime/debug"
 	"runtime/pprof"
 	"sort"
 	"sync"
+	"time"
 
 	"verifharness/hx"
 	"verifharness/storex"
@@ -59,9 +61,11 @@ func emit(h *storex.Hist, o *hx.Out, tag string) {
 	}
 	op, impl := h.OpLine("c12", tag)
 	o.Emit(op, impl)
+	h.FlushProbeStats(o)
 }
 
 func run(c hx.Config) error {
+	started := time.Now()
 	debug.SetGCPercent(400) // the histories allocate short-lived parse results and error lists almost exclusively
 	if pf := os.Getenv("C12_PROF"); pf != "" {
 		f, _ := os.Create(pf)
@@ -72,6 +76,9 @@ func run(c hx.Config) error {
 	// every schema type (storex.Bases) and the schema kinds whose DEFINITION holds reference-typed data handed out by
 	// accessors, with adversarial members (storex.DefBases: repeats, nested slices, maps, shared member instances)
 	bases := append(storex.Bases(), storex.DefBases()...)
+	nPlain := len(bases)
+	// schemas whose GlobalRegistry entry carries examples (H9 only: in-place rewriting of documents)
+	bases = append(bases, storex.MetaExampleBases()...)
 	// The families of different bases share nothing but the library's globals; they are run by a few workers, each base
 	// with its own random stream (seed, base index) and its own output part; the parts are joined in base order, so
 	// the case stream is a function of the seed and the tier only.
@@ -94,7 +101,10 @@ func run(c hx.Config) error {
 					errs[k] = err
 					continue
 				}
-				runBase(c, bases[k], hx.NewRng(c.Seed*1000003+uint64(k)+1), o)
+				if k < nPlain {
+					runBase(c, bases[k], hx.NewRng(c.Seed*1000003+uint64(k)+1), o)
+				}
+				runInplace(c, bases[k], k >= nPlain, hx.NewRng(c.Seed*7000003+uint64(k)+1), o)
 				errs[k] = o.Close(nil)
 			}
 		}()
@@ -109,8 +119,9 @@ func run(c hx.Config) error {
 			return e
 		}
 	}
-	return merge(c.OutDir, parts, map[string]any{"bases": len(bases), "def_bases": len(storex.DefBases()), "option_sets": storex.NOptions(),
-		"check_catalogue": len(storex.CheckCatalogue()), "check_catalogue_static": storex.NStaticChecks()})
+	return merge(c.OutDir, parts, map[string]any{"bases": len(bases), "def_bases": len(storex.DefBases()), "option_sets": storex.NOptionsPure() + 2, "registry_variants": storex.NRegistryVariants(),
+		"check_catalogue": len(storex.CheckCatalogue()), "check_catalogue_static": storex.NStaticChecks(),
+		"harness_s": math.Round(time.Since(started).Seconds()*10) / 10})
 }
 
 // merge joins the per-base parts (ops.txt, impl.txt, stats.json) in order and removes them.
@@ -169,7 +180,7 @@ func merge(dir string, parts []string, extra map[string]any) error {
 
 // runBase runs every history class over one base.
 func runBase(c hx.Config, b storex.Base, rng *hx.Rng, o *hx.Out) {
-	nopt := storex.NOptions()
+	nopt := storex.NOptionsPure() // every option set but the two that rewrite documents in place (runInplace)
 	nfixed := len(storex.OptionSets())
 	cat := storex.CheckCatalogue()
 	nstatic := storex.NStaticChecks()
@@ -302,6 +313,29 @@ func runBase(c hx.Config, b storex.Base, rng *hx.Rng, o *hx.Out) {
 					emit(h, o, "H7")
 				}
 			}
+			// H8: ToJSONSchema(REGISTRY) as a history step: a schema is converted, then a registry that holds the whole family
+			// (IDs / titles / IDs+examples x default / reused-ref / io-input+URI), then the schema again, a relative, the
+			// registry again, everything once more. Document of the registry against the twin family's registry.
+			if rep == 0 {
+				for k := 0; k < 2; k++ {
+					h := storex.NewHistDef(b)
+					for i := 0; i < 1+rng.Intn(3); i++ {
+						h.Step(rng.Intn(len(h.Live)), hx.Pick(rng, methods), rng.Intn(3), o)
+					}
+					n := len(h.Live)
+					h.ConvR(n-1, 0, o)
+					h.ConvReg(rng.Intn(storex.NRegistryVariants()), o)
+					h.ConvR(n-1, 0, o)
+					h.ConvR(0, rng.Intn(nopt), o)
+					h.ConvReg(rng.Intn(storex.NRegistryVariants()), o)
+					h.ParseStep(rng.Intn(n), o)
+					h.ConvReg(k*3, o)
+					for j := 0; j < n; j++ {
+						h.ConvR(j, 0, o)
+					}
+					emit(h, o, "H8")
+				}
+			}
 			// H3/H4: random family, conversions in random order with random options, each schema at least twice
 			for k := 0; k < 6; k++ {
 				h := storex.NewHistDef(b)
@@ -328,5 +362,63 @@ func runBase(c hx.Config, b storex.Base, rng *hx.Rng, o *hx.Out) {
 			}
 		}
 
+	}
+}
+
+// runInplace — H9: histories in which documents are REWRITTEN IN PLACE: by an Override callback (every list and pointee
+// of every node it is handed) or by the caller holding the returned document. The behavioural cross-check of the
+// translator's "private" classifications: whatever the document holds by reference is overwritten, and every live
+// schema (internals, accessors, definition, registry entry, parse fingerprint) and every later document is compared.
+// Every conv step carries the measurement of which registry entries' example lists the document holds (ConvW).
+// withExamples: the base's registry entry has examples from the start; otherwise entries with examples come from
+// gozod.Meta CHECKS of the catalogue (registered by the first conversion).
+func runInplace(c hx.Config, b storex.Base, withExamples bool, rng *hx.Rng, o *hx.Out) {
+	methods := storex.Methods(b.Mk())
+	sort.Strings(methods)
+	nopt := storex.NOptionsPure()
+	reps := 1
+	if withExamples {
+		reps = 6
+	}
+	if c.Thorough() {
+		reps *= 3
+	}
+	for rep := 0; rep < reps; rep++ {
+		bb := b
+		if !withExamples {
+			// a Meta check of the catalogue that carries examples (static entries 3.. are the Meta variants)
+			bb = storex.WithAddedCheck(b, storex.CheckVariantBase+3+3+rng.Intn(8))
+		}
+		h := storex.NewHistDef(bb)
+		if withExamples {
+			h.Step(0, "Element", 0, o) // the member that carries the entry joins the live list (entries of members are not tracked otherwise)
+		}
+		for i := 0; i < 1+rng.Intn(2); i++ {
+			for try := 0; try < 4; try++ {
+				if h.Step(rng.Intn(len(h.Live)), hx.Pick(rng, methods), rng.Intn(3), o) {
+					break
+				}
+			}
+		}
+		n := len(h.Live)
+		first := storex.OptInplace
+		if rep%2 == 1 {
+			first = storex.OptMutReturned
+		}
+		h.ConvW(0, 0, o)
+		h.ConvW(n-1, first, o)
+		h.ConvW(0, 0, o)
+		h.ConvW(n-1, 0, o)
+		h.ParseStep(0, o)
+		h.ConvW(0, storex.OptInplace+storex.OptMutReturned-first, o)
+		h.ConvW(rng.Intn(n), rng.Intn(nopt), o)
+		if rng.Intn(2) == 0 {
+			h.Step(rng.Intn(n), hx.Pick(rng, methods), rng.Intn(3), o) // a relative derived after the rewriting
+		}
+		h.ConvW(n-1, storex.OptInplace, o)
+		for j := 0; j < len(h.Live); j++ {
+			h.ConvW(j, 0, o)
+		}
+		emit(h, o, "H9")
 	}
 }
